@@ -54,7 +54,8 @@ Inductive val :=
 | VIter (ps : list place) (lo n : nat)
 | VGroups (q : place) (w n : nat)          (* `blocks.into_chunks()`: n groups of w blocks of the InOutBuf at q *)
 | VChunks (q : place) (cs n total : nat)   (* `q.chunks_exact_mut(cs)`: n whole chunks of a slice of length total *)
-| VFmt (out : list string).
+| VFmt (out : list string)
+| VResult (ok : bool) (v : val).          (* Result<_, _> *)
 
 Definition env := list (string * val).
 
@@ -343,7 +344,9 @@ Definition builtin_call (f : string) (args : list val) : option val :=
     | [VBlk b] => if len_eq (length b) (w / 8) then Some (VInt w (if be then be_decode b else le_decode b)) else None
     | _ => None
     end in
-  if f =s "InOut::from" then (match args with [v] => Some v | _ => None end)   (* a view of (input, output), like `.into()` *)
+  if f =s "Ok" then (match args with [v] => Some (VResult true v) | _ => None end)
+  else if f =s "Err" then (match args with [v] => Some (VResult false v) | _ => None end)
+  else if f =s "InOut::from" then (match args with [v] => Some v | _ => None end)   (* a view of (input, output), like `.into()` *)
   else if f =s "u32::from_be_bytes" then dec 32 true
   else if (f =s "u32::from_le_bytes") || (f =s "u32::from_ne_bytes") then dec 32 false
   else if f =s "u64::from_be_bytes" then dec 64 true
@@ -369,6 +372,16 @@ Fixpoint bind_pat (p : pat) (v : val) (e : env) : option env :=
   | PId x, _ => Some ((x, v) :: e)
   | PWild, _ => Some e
   | PRef p', _ => bind_pat p' v e
+  | PStruct _ fps _, VStruct _ fs =>            (* `let Self { a, b } = self;` binds the named fields *)
+      (fix go (fps : list (string * pat)) (e : env) : option env :=
+         match fps with
+         | [] => Some e
+         | (fname, p) :: fps' =>
+             match lookup fname fs with
+             | Some v => match bind_pat p v e with Some e' => go fps' e' | None => None end
+             | None => None
+             end
+         end) fps e
   | PTuple ps, VTuple vs =>
       (fix go (ps : list pat) (vs : list val) (e : env) : option env :=
          match ps, vs with
@@ -426,7 +439,7 @@ Section Interp.
         | SItem _ => continue e (RV VUnit) true
         | SLet p _ (Some i) =>
             bindF (ev e i) (fun e r =>
-              match as_val e r with
+              match (match p with PStruct _ _ _ => as_data e r | _ => as_val e r end) with
               | Some v => match bind_pat p v e with Some e' => continue e' (RV VUnit) true | None => None end
               | None => None
               end)
@@ -948,9 +961,22 @@ Section Interp.
                         | _ => None
                         end
                     | Some d =>
-                        match data_of e rs with
-                        | Some ds => match data_method C d m ds with Some v => Some (Norm e (RV v)) | None => None end
-                        | None => None
+                        match lookup ("method:" ++ m) (fns C), data_of e rs with
+                        | Some (FSem sem), Some ds =>          (* a method given by a contract: receiver first *)
+                            match sem (d :: ds) with
+                            | Some (v, d' :: news) =>
+                                let e1 := match as_place e r with
+                                          | Some q => wr e q d'
+                                          | None => Some e
+                                          end in
+                                match e1 with
+                                | Some e1 => match copy_out e1 rs news with Some e2 => Some (Norm e2 (RV v)) | None => None end
+                                | None => None
+                                end
+                            | _ => None
+                            end
+                        | _, Some ds => match data_method C d m ds with Some v => Some (Norm e (RV v)) | None => None end
+                        | _, None => None
                         end
                     | None => None
                     end
